@@ -8,6 +8,8 @@ import (
 	"net/netip"
 	"time"
 
+	"github.com/daeuniverse/dae/common/consts"
+	"github.com/daeuniverse/dae/component/dns"
 	"github.com/daeuniverse/outbound/netproxy"
 	dnsmessage "github.com/miekg/dns"
 	"github.com/sirupsen/logrus"
@@ -173,4 +175,76 @@ func Verif_C09_udp_upstream_id() {
 	}
 	vs.Assert("the datagram carrying the request's ID is returned", err == nil && msg != nil && msg.Id == rid)
 	vs.Assert("and it is the first such datagram", len(msg.Question) == 1 && msg.Question[0].Name == names[first])
+}
+
+// ---- concurrent identical questions: one resolution, every waiter answered under its own ID ----
+
+type c09Writer struct {
+	ids  []uint16 // the ID of each message at the moment it was handed over
+	msgs []*dnsmessage.Msg
+}
+
+func (w *c09Writer) LocalAddr() net.Addr  { return nil }
+func (w *c09Writer) RemoteAddr() net.Addr { return nil }
+func (w *c09Writer) WriteMsg(m *dnsmessage.Msg) error {
+	w.ids = append(w.ids, m.Id)
+	w.msgs = append(w.msgs, m)
+	return nil
+}
+func (w *c09Writer) Write(b []byte) (int, error) { return len(b), nil }
+func (w *c09Writer) Close() error                { return nil }
+func (w *c09Writer) TsigStatus() error           { return nil }
+func (w *c09Writer) TsigTimersOnly(bool)         {}
+func (w *c09Writer) Hijack()                     {}
+
+// Verif_C09_singleflight: two clients ask the same uncached question at the same time with
+// arbitrary transaction IDs; the upstream answer is one dae does not cache (NXDOMAIN). Under every
+// interleaving at blocking operations (the resolution itself yields): one upstream resolution;
+// each client gets exactly one reply, under its own ID, for its question; and the two replies are
+// separate messages - a waiter's reply is never the object another waiter (or the resolver)
+// still writes to.
+func Verif_C09_singleflight() {
+	vs.Schedules(0)
+	c08Install()
+	c := c08Controller(false, 60, 100, nil)
+	c.runtime().routing = &dns.Dns{}
+	up := &dns.Upstream{Scheme: "udp", Hostname: "a", Port: 53}
+	vs.Replace("(*github.com/daeuniverse/dae/component/dns.Dns).RequestSelect",
+		func(s *dns.Dns, ctx context.Context, qname string, qtype uint16) (consts.DnsRequestOutboundIndex, *dns.Upstream, error) {
+			return 0, up, nil
+		})
+	resolutions := 0
+	var shared *dnsmessage.Msg
+	vs.Replace("(*github.com/daeuniverse/dae/control.DnsController).resolveForSingleflight",
+		func(c *DnsController, ctx context.Context, m *dnsmessage.Msg, req *udpRequest, idx consts.DnsRequestOutboundIndex, u *dns.Upstream, rk, bk string) (*dnsmessage.Msg, error) {
+			resolutions++
+			vs.Yield() // the upstream takes its time: the other client's query arrives meanwhile
+			r := c08Query("nx.example.com.")
+			r.Response = true
+			r.Rcode = dnsmessage.RcodeNameError
+			r.Id = m.Id
+			shared = r
+			return r, nil
+		})
+	ids := [2]uint16{vs.U16("client0.id"), vs.U16("client1.id")}
+	var ws [2]*c09Writer
+	var errs [2]error
+	for i := 0; i < 2; i++ {
+		i := i
+		ws[i] = &c09Writer{}
+		go func() {
+			q := c08Query("nx.example.com.")
+			q.Id = ids[i]
+			errs[i] = c.HandleWithResponseWriter_(context.Background(), q, nil, ws[i])
+		}()
+	}
+	vs.Join()
+	vs.Assert("both clients are served", errs[0] == nil && errs[1] == nil && len(ws[0].msgs) == 1 && len(ws[1].msgs) == 1)
+	vs.Assert("each reply carries its own client's transaction ID", ws[0].ids[0] == ids[0] && ws[1].ids[0] == ids[1])
+	vs.Assert("each reply answers the client's question", len(ws[0].msgs[0].Question) == 1 && ws[0].msgs[0].Question[0].Name == "nx.example.com." && ws[1].msgs[0].Question[0].Name == "nx.example.com.")
+	if resolutions == 1 {
+		vs.Reach("coalesced")
+		vs.Assert("waiters of one resolution get separate reply messages", ws[0].msgs[0] != ws[1].msgs[0] && ws[0].msgs[0] != shared && ws[1].msgs[0] != shared)
+	}
+	vs.Assert("at most one upstream resolution per waiter, one when they coincide", resolutions >= 1 && resolutions <= 2)
 }
